@@ -56,6 +56,16 @@ def n_class_ok(t, true_name="labels"):
     return False
 
 
+def wide_counter(arr) -> bool:
+    """np.zeros(...) whose element type can count any number of samples (default float64, or a fixed wide type)."""
+    kw = dict(arr[3])
+    if set(kw) - {"dtype"}:
+        return False
+    d = kw.get("dtype")
+    return d is None or d in (("builtin", "float"), ("builtin", "int"), ("mod", "numpy.float64"), ("mod", "numpy.int64"),
+                              ("mod", "numpy.uint64"), ("mod", "numpy.intp"))
+
+
 def check_accuracy(rep, repo):
     fi = repo.need_function(GEN, "opf_accuracy")
     w = Walker(repo, fi, inline=lambda f: False)
@@ -83,7 +93,7 @@ def check_accuracy(rep, repo):
     if not ok_roles:
         return
     shape_ok = arr[0] == "alloc" and arr[1] == "numpy.zeros" and arr[2] and arr[2][0][0] == "tuple" \
-        and n_class_ok(arr[2][0][1][0]) and arr[2][0][1][1] == ("const", 2)
+        and n_class_ok(arr[2][0][1][0]) and arr[2][0][1][1] == ("const", 2) and wide_counter(arr)
     rep.fn("ACC-shape", fi, "error table has K = max(labels) + 1 rows and 2 columns", shape_ok, f"table is '{show(arr)}'")
     cP, cT = cols[P], cols[T]
     counts_ok = lambda t: t in (("call", ("mod", "numpy.bincount"), (asarr("labels"),), ()),
@@ -155,8 +165,9 @@ def check_confusion(rep, repo):
            f"increment: {[e.text() for e in inc]}")
     if arr is not None:
         shape = arr[0] == "alloc" and arr[1] == "numpy.zeros" and arr[2] and arr[2][0][0] == "tuple" \
-            and len(arr[2][0][1]) == 2 and all(n_class_ok(x) for x in arr[2][0][1])
-        rep.fn("CM-shape", fi, "K x K zeros with K = max(labels) + 1", shape, f"matrix is '{show(arr)}'")
+            and len(arr[2][0][1]) == 2 and all(n_class_ok(x) for x in arr[2][0][1]) and wide_counter(arr)
+        rep.fn("CM-shape", fi, "K x K zeros with K = max(labels) + 1, counters wide enough for any sample count", shape,
+               f"matrix is '{show(arr)}' (a counter type taken from the labels wraps around for narrow integer labels)")
         rets = [e for e in w.events if e.kind == "return"]
         rep.fn("CM-return", fi, "the counted matrix is returned", len(rets) == 1 and rets[0].value == arr, "")
 
@@ -177,6 +188,8 @@ def check_per_label(rep, repo):
     if not ok:
         return
     arr = inc[0].target[1]
+    rep.fn("PL-shape", fi, "per-class error counters are wide zeros", arr[0] == "alloc" and arr[1] == "numpy.zeros"
+           and wide_counter(arr) and arr[2] and n_class_ok(arr[2][0]), f"counters are '{show(arr)}'")
     divs = [e for e in w.events if e.kind == "bind" and e.aug == "/" and e.target is not None] + \
            [e for e in w.events if e.kind == "store" and e.aug == "/"]
     counts = [("idx", ("call", ("mod", "numpy.unique"), (lab,), (("return_counts", ("const", True)),)), ("const", 1))
